@@ -14,11 +14,26 @@
 (*                 detection), so nothing but "no crash" is demanded.      *)
 (* Uses the Encode / Decode operators of Ident.tla; the speller variables  *)
 (* of that module are parked.                                              *)
+(*                                                                         *)
+(* HOW THE JSON STRING IS WRITTEN (Part = "json", variable `esc`).  A      *)
+(* base64 value mostly arrives as a JSON string, and JSON has several      *)
+(* spellings for every character: itself, a \uXXXX escape (hex digits in   *)
+(* either case) and, for the solidus - character 63 of the standard        *)
+(* alphabet -, the two-character escape that many encoders emit.  JSON     *)
+(* string decoding comes first: the base64 layer sees JsonValue(units),    *)
+(* the characters, never how they were written, so every spelling of the   *)
+(* same string decodes exactly like the plain one (value variants to the   *)
+(* bytes; "free" variants to whatever the plain spelling gives).  `esc`    *)
+(* assigns a style to every character position: all plain; one position    *)
+(* escaped (every position, the first and the last included) in every      *)
+(* style that applies; every position escaped.                             *)
 (***************************************************************************)
 EXTENDS Ident, Json
 
 CONSTANTS ByteAlphabet,    \* "small" | "large"
-          MaxBytes
+          MaxBytes,
+          Part             \* "codec": plain JSON spelling only, the codec invariants are checked;
+                           \* "json": the JSON spellings of every string (the codec invariants are Part "codec"'s)
 
 BytesSmall == {0, 62, 63, 97, 251, 254, 255}
 BytesLarge == BytesSmall \cup {1, 15, 190, 239, 248}
@@ -27,8 +42,8 @@ Universe(k) == [1..k -> Bytes]
 
 Variants == {"std", "url", "mixed", "padded", "urlpadded", "badchar", "short", "noncanon", "newline", "space"}
 
-VARIABLES b, variant, bphase, bout
-bvars == <<b, variant, bphase, bout, atoms, pos, n, dev, phase, padlen, out>>
+VARIABLES b, variant, bphase, bout, esc
+bvars == <<b, variant, bphase, bout, esc, atoms, pos, n, dev, phase, padlen, out>>
 
 Has(x, v) == \E i \in 1..Len(x) : x[i] = v
 
@@ -56,9 +71,33 @@ Relevant(bs, v) ==
       [] v \in {"newline", "space"} -> Len(bs) >= 1
       [] OTHER -> TRUE
 
+\* --- JSON spellings of a string ----------------------------------------------------
+\* "plain": the character itself (the short escape for a control character, which JSON does not admit raw);
+\* "sol": backslash solidus; "u" / "U": backslash u and four hex digits, lower / upper case
+Styles == {"plain", "sol", "u", "U"}
+Escapes == Styles \ {"plain"}
+\* the upper-case form is a different spelling only where the code has a hex letter: of the alphabet-specific
+\* characters + (2b) / (2f) - (2d) _ (5f), and of the line feed (0a)
+StyleOK(c, st) == CASE st = "sol" -> c = "/"
+                    [] st = "U" -> c \in {"+", "/", "-", "_", "nl"}
+                    [] OTHER -> TRUE
+AllPlain(sp) == [i \in 1..Len(sp) |-> "plain"]
+\* position by position for the spellings made of alphabet characters (and padding); the variants with foreign
+\* characters and wrong lengths are longer and decode to nothing anyway: all plain / all escaped
+Fine == {"std", "url", "mixed", "padded", "urlpadded", "noncanon"}
+Patterns(sp, v) == {AllPlain(sp)}
+                   \cup (IF v \in Fine THEN {[AllPlain(sp) EXCEPT ![k] = st] : k \in 1..Len(sp), st \in Escapes} ELSE {})
+                   \cup {[i \in 1..Len(sp) |-> IF StyleOK(sp[i], st) THEN st ELSE "u"] : st \in Escapes}
+WellStyled(sp, e) == \A i \in 1..Len(sp) : StyleOK(sp[i], e[i])
+\* a JSON string as written: units (character, style); its value: the characters
+Units(sp, e) == [i \in 1..Len(sp) |-> [c |-> sp[i], how |-> e[i]]]
+JsonValue(units) == [i \in 1..Len(units) |-> units[i].c]
+
 BInit == /\ \E k \in 0..MaxBytes : b \in Universe(k)
          /\ variant \in Variants
          /\ Relevant(b, variant)
+         /\ IF Part = "json" THEN esc \in {e \in Patterns(Spelling(b, variant), variant) : WellStyled(Spelling(b, variant), e)}
+                            ELSE esc = AllPlain(Spelling(b, variant))
          /\ bphase = "chosen" /\ bout = [sp |-> <<>>]
          /\ atoms = <<>> /\ pos = "stop" /\ n = 0 /\ dev = 0 /\ phase = "parked" /\ padlen = 0 /\ out = NoOut
 
@@ -68,7 +107,7 @@ JudgeB ==
     /\ bout' = [sp |-> Spelling(b, variant),
                 expect |-> IF variant \in {"std", "url"} THEN "value" ELSE "free",
                 std |-> Encode(b, StdAlphabet)]
-    /\ UNCHANGED <<b, variant, atoms, pos, n, dev, phase, padlen, out>>
+    /\ UNCHANGED <<b, variant, esc, atoms, pos, n, dev, phase, padlen, out>>
 
 BSpec == BInit /\ [][JudgeB]_bvars
 
@@ -84,6 +123,20 @@ AlphabetsAgree == /\ Len(StdAlphabet) = 64 /\ Len(UrlAlphabet) = 64
                   /\ Cardinality({StdAlphabet[i] : i \in 1..64}) = 64 /\ Cardinality({UrlAlphabet[i] : i \in 1..64}) = 64
 UnpaddedLength == bphase = "done" => Len(Encode(b, StdAlphabet)) = (Len(b) * 4 + 2) \div 3
 
+\* JSON string decoding comes first: what the base64 layer is given is the plain string, however it was written;
+\* the judgement does not read `esc`
+SpellingIrrelevant == bphase = "done" =>
+                        /\ Len(esc) = Len(bout.sp) /\ WellStyled(bout.sp, esc)
+                        /\ JsonValue(Units(bout.sp, esc)) = bout.sp
+                        /\ JsonValue(Units(bout.sp, esc)) = JsonValue(Units(bout.sp, AllPlain(bout.sp)))
+                        /\ (variant \in {"std", "url"} => bout.expect = "value")
+PartsApart == Part = "codec" => esc = AllPlain(Spelling(b, variant))
+
+Escaped == {i \in 1..Len(esc) : esc[i] # "plain"}
+EscClass == IF Escaped = {} THEN "plain"
+            ELSE IF Cardinality(Escaped) = Len(esc) /\ Len(esc) > 1 THEN "all"
+            ELSE IF 1 \in Escaped THEN "first" ELSE IF Len(esc) \in Escaped THEN "last" ELSE "inner"
 BEmit == bphase = "done" =>
-           PrintT(ToJson([variant |-> variant, bytes |-> b, sp |-> bout.sp, std |-> bout.std, expect |-> bout.expect]))
+           PrintT(ToJson([variant |-> variant, bytes |-> b, sp |-> bout.sp, std |-> bout.std, expect |-> bout.expect,
+                          esc |-> esc, escclass |-> EscClass]))
 =============================================================================
